@@ -133,7 +133,10 @@ PFORMULAS = {
     "defn": 'def anyname(i):\n    """param doc"""\n    # a comment\n    return None  # trailing',
     "defd": "def _formula(i, k=2):\n    return {'refs': {'w': k}}",
 }
-ITEMS = ["none", "one", "two", "strarg", "nonearg", "tuparg", "child", "nested", "snested", "both", "kw2"]
+ITEMS = ["none", "one", "two", "strarg", "nonearg", "tuparg", "child", "nested", "snested", "both", "kw2",
+         # ItemSpace inputs next to references that the reader restores elsewhere: in a child space, in a base
+         # space read after the parametrised one, at model level
+         "childref", "baseref", "modelref"]
 
 BASE_SHAPES = ["sib", "cross", "two", "two_r", "chain", "child", "diamond"]
 
@@ -378,13 +381,25 @@ def gen(case):
         if pat == "child":
             L.append('T = S.new_space("T")')
             L.append('T.new_cells("tc", formula="lambda x: x + 100")')
+        if pat == "childref":
+            L.append('T = S.new_space("T")')
+            L.append('T.q = 3')
+            L.append('T.new_cells("tc", formula="lambda x: x + q")')
+        if pat == "baseref":
+            L.append('ZB = m.new_space("ZB")')
+            L.append('ZB.q = 3')
+            L.append('ZB.new_cells("bc", formula="lambda x: x + q")')
+            L.append('S.add_bases(ZB)')
+        if pat == "modelref":
+            L.append('m.q = 3')
+            L.append('S.new_cells("mc", formula="lambda x: x + q")')
         if pat in ("nested", "snested", "both"):
             L.append('Q = S.new_space("Q2", formula="lambda j: None")')
             L.append('Q.new_cells("d", formula="lambda y: (j, y)")')
         pre = "P[1].Q" if ctx == "param2" else "S"
         lead = [["P", (1,), "Q"]] if ctx == "param2" else [list(steps)]
         a2 = ", 3" if two and pat == "kw2" else ""
-        if pat == "one":
+        if pat in ("one", "childref", "baseref", "modelref"):
             late.append("%s[1].c[0] = 5" % pre)
         elif pat == "kw2":
             late.append("%s[1%s].c[0] = 5" % (pre, a2))
